@@ -416,6 +416,14 @@ theorem minv_setSeqState {O log keys org start m} (h : MInv O log keys org start
 theorem minv_setSeqNow {O log keys org start m} (h : MInv O log keys org start m) :
     MInv O log keys org start m.setSeqNow := minv_setSeqState h _
 
+theorem minv_users {O log keys org start m} (h : MInv O log keys org start m) (u : List Nat) :
+    MInv O log keys org start { m with users := u } :=
+  ⟨⟨h.coh.hlog, h.coh.box, h.coh.tr, h.coh.wf, h.coh.pend, h.coh.nobox⟩, h.p0, h.q0, h.c0, h.queues, h.internal,
+    h.startP, h.startC, h.parked⟩
+
+theorem minv_learnUsers {O log keys org start m} (h : MInv O log keys org start m) (es : List Entry) :
+    MInv O log keys org start (m.learnUsers es) := minv_users h _
+
 theorem minv_park {O log keys org start m} (h : MInv O log keys org start m) (cont : List Entry)
     (hc : ∀ e ∈ cont, e ∈ log) : MInv O log keys org start { m with parked := m.parked ++ [cont] } := by
   refine ⟨⟨h.coh.hlog, h.coh.box, h.coh.tr, h.coh.wf, h.coh.pend, h.coh.nobox⟩, h.p0, h.q0, h.c0, h.queues, h.internal,
